@@ -2137,6 +2137,10 @@ class Ev:
                 raise RaisedV("ValueError", f"{mod.rel}:{getattr(t, 'lineno', 0)}" if mod else "")
             env[t.value.id] = v
             return
+        return self._store_into(base, idx, v, t, mod, env)
+
+    def _store_into(self, base, idx, v, t, mod, env=None):
+        env = env if env is not None else {}
         if hasattr(base, "sym_store"):
             return base.sym_store(self, idx, v, t, mod)
         if isinstance(base, DictV):
@@ -2180,6 +2184,15 @@ class Ev:
                         base.cells[key] = as_sym(v)
                 return
             sets, scalar = base.index_sets(items, self, t, mod)
+            gi = getattr(base, "_grid_index", None)
+            if gi is not None:
+                # a store at ONE position (or a part) of the grid axis: the cell keeps its old value everywhere else - neither the old nor the new expression
+                if isinstance(v, ArrV):
+                    raise self.err("array stored at a part of the grid axis", t, mod)
+                tok = sp.Symbol("gridpos[" + (str(gi) if is_sym(gi) else f"{gi.lo}:{gi.hi}:{gi.step}") + "]")
+                for combo in itertools.product(*sets):
+                    base.cells[tuple(combo)] = sp.Function("ONLY_AT")(as_sym(v), tok, as_sym(base.get(tuple(combo))))
+                return
             if isinstance(v, ArrV):
                 dims = [len(x) for x, sc in zip(sets, scalar) if not sc]
                 if list(v.shape) != dims:
@@ -2792,6 +2805,59 @@ class RankOf(sp.Function):
     nargs = 1
 
 
+class StackV:
+    """numpy.empty / zeros((k, <grid dims>, <constant dims>)): k arrays over the grid held in one block.  Unpacking or iterating it gives the k arrays
+    (views: what is stored through them is stored in the block); a subscript addresses the k arrays with its first item"""
+
+    def __init__(self, members):
+        self.members = list(members)
+
+    def sym_iter(self, ev, n, mod):
+        return list(self.members)
+
+    def _split(self, ev, idx, n, mod):
+        items = list(idx.items) if isinstance(idx, Tup) and idx.kind != "list" else [idx]
+        items = [_as_index(i) for i in items]
+        nd = 1 + self.members[0].batch + len(self.members[0].shape)
+        if any(i is Ellipsis for i in items):
+            k_ = items.index(Ellipsis)
+            items = items[:k_] + [SliceV(None, None, None)] * (nd - len(items) + 1) + items[k_ + 1:]
+        first, rest = items[0], items[1:]
+        if isinstance(first, SliceV):
+            sel = list(range(len(self.members)))[slice(*(int(x) if x is not None else None for x in (first.lo, first.hi, first.step)))]
+            scalar = False
+        elif is_sym(first) and first.is_Integer:
+            if not -len(self.members) <= int(first) < len(self.members):
+                raise RaisedV("IndexError", ev.here(n, mod))
+            sel, scalar = [int(first) % len(self.members)], True
+        else:
+            raise ev.err("index on the first axis of a block of grid arrays", n, mod)
+        return sel, scalar, (Tup(rest, "tuple") if rest else None)
+
+    def sym_subscript(self, ev, idx, n, mod):
+        sel, scalar, rest = self._split(ev, idx, n, mod)
+        parts = [self.members[i] if rest is None else ev.subscript(self.members[i], rest, n, mod) for i in sel]
+        return parts[0] if scalar else StackV(parts)
+
+    def sym_store(self, ev, idx, v, t, mod):
+        sel, scalar, rest = self._split(ev, idx, t, mod)
+        if isinstance(v, (ArrV, StackV)):
+            raise ev.err("array stored into a block of grid arrays", t, mod)
+        for i in sel:
+            m = self.members[i]
+            if rest is None:
+                m.cells = {}
+                m.fill = as_sym(v)
+                continue
+            ev._store_into(m, rest, v, t, mod)
+
+    def sym_getattr(self, ev, name, node, mod):
+        if name == "shape":
+            inner = ev.get_attr(self.members[0], "shape", node, mod)
+            return Tup([sp.Integer(len(self.members))] + list(inner.items), "tuple")
+        raise ev.err(f"attribute {name} of a block of grid arrays", node, mod)
+
+
 class GridSlab:
     """x[k] of an array with two or more grid axes: only its size is known (how many bytes one row of the leading axis takes)"""
 
@@ -3350,7 +3416,18 @@ def _is_float_like_dtype(v):
     return v is None or _is_bool_dtype(v) or any(t in repr(v).lower() for t in ("float", "double", "complex"))
 
 
+def _leading_stack(ev, shape, n, mod):
+    """(k, rest) when the shape is (k, <at least one grid dimension>, ...) with a constant k in FRONT of the grid axes; else None"""
+    items = ev.iterate(shape, n, mod) if isinstance(shape, Tup) else [shape]
+    if len(items) >= 2 and is_sym(items[0]) and items[0].is_Integer and 1 <= int(items[0]) <= 12 and is_sym(items[1]) and not as_sym(items[1]).is_number:
+        return int(items[0]), Tup(list(items[1:]), "tuple")
+    return None
+
+
 def lib_zeros(ev, a, k, n, mod):
+    st = _leading_stack(ev, a[0], n, mod)
+    if st is not None:
+        return StackV([lib_zeros(ev, [st[1]] + list(a[1:]), k, n, mod) for _ in range(st[0])])
     batch, const = _shape_items(ev, a[0], n, mod)
     dt = k.get("dtype", a[1] if len(a) > 1 else None)
     if not _is_float_like_dtype(dt):
@@ -3374,6 +3451,11 @@ UNINIT = sp.Symbol("UNINITIALISED_MEMORY")
 
 def lib_empty(ev, a, k, n, mod):
     """numpy.empty: whatever the allocator hands out - every cell that is not written later stays UNINITIALISED_MEMORY"""
+    st = _leading_stack(ev, a[0], n, mod)
+    if st is not None:
+        members = [lib_empty(ev, [st[1]] + list(a[1:]), k, n, mod) for _ in range(st[0])]
+        if all(isinstance(m_, ArrV) for m_ in members):
+            return StackV(members)
     batch, const = _shape_items(ev, a[0], n, mod)
     if not const:
         return UNINIT
